@@ -344,7 +344,7 @@ class HTMLSerializer(object):
                             yield self.encodeStrict(quote_char)
                         else:
                             yield self.encode(v)
-                if name in voidElements and self.use_trailing_solidus:
+                if type == "EmptyTag" and name in voidElements and self.use_trailing_solidus:
                     # a solidus directly after an unquoted value would be read as part of it
                     if self.space_before_trailing_solidus or not quote_attr:
                         yield self.encodeStrict(" /")
